@@ -93,3 +93,157 @@ Contract(
     native={"skip": True},
     notes="ghost parameters img / wit_x / wit_y; GREAT_CIRCLE excluded here (bounded)",
 )
+
+
+# ---------------------------------------------------------------------------------------------------------------------
+# _process._process_numpy: the four-sweep glue (nested jitted closure; closure variables: max_distance, target_values,
+# distance_metric, process_mode).  Ghost state: per cell the witness target (WX, WY) of the stored distance and the final
+# distance GD; per line the callee's witnesses wit_x / wit_y, which are saved to / restored from WX, WY together with the
+# distances.  What is proved: every non-NaN distance is the distance to an actual target cell within max_distance, target
+# cells have distance 0, and the allocation / direction output of a cell is computed from that same witness (NaN where the
+# distance is NaN).  Not proved here: that the witness is the *nearest* target (bounded, known approximation).
+G = "xrspatial/proximity.py"
+_TV = lambda v: "is_tgt(%s, target_values, nv)" % v
+_DD = lambda r, c: ("spec_dist(x_coords[WY[%(r)s, %(c)s], WX[%(r)s, %(c)s]], x_coords[%(r)s, %(c)s], y_coords[WY[%(r)s, %(c)s], WX[%(r)s, %(c)s]], "
+                    "y_coords[%(r)s, %(c)s], distance_metric)") % {"r": r, "c": c}
+# witness facts of the stored distance d of cell (r, c)
+_WIT = lambda r, c, d: ("(0 <= WX[%(r)s, %(c)s] and WX[%(r)s, %(c)s] < width and 0 <= WY[%(r)s, %(c)s] and WY[%(r)s, %(c)s] < height and %(t)s "
+                        "and same(%(d)s, %(dd)s) and %(d)s <= max_distance)") % {
+    "r": r, "c": c, "d": d, "t": _TV("img[WY[%s, %s], WX[%s, %s]]" % (r, c, r, c)), "dd": _DD(r, c)}
+_CELLF = lambda r, c: "(isnan(img_distance[%(r)s, %(c)s]) or img_distance[%(r)s, %(c)s] < 0 or %(w)s)" % {
+    "r": r, "c": c, "w": _WIT(r, c, "img_distance[%s, %s]" % (r, c))}
+# the output of a cell with distance d and witness (wx, wy)
+_OUT = lambda r, c, d, wx, wy: (
+    "((not (%(d)s >= 0)) or ((process_mode != 1 or same(output_img[%(r)s, %(c)s], img[%(wy)s, %(wx)s])) and (process_mode != 2 or "
+    "same(output_img[%(r)s, %(c)s], spec_direction(x_coords[%(r)s, %(c)s], x_coords[%(wy)s, %(wx)s], y_coords[%(r)s, %(c)s], y_coords[%(wy)s, %(wx)s]))))) "
+    "and ((%(d)s >= 0) or isnan(output_img[%(r)s, %(c)s]))") % {"r": r, "c": c, "d": d, "wx": wx, "wy": wy}
+_OUTF = lambda r, c: _OUT(r, c, "img_distance[%s, %s]" % (r, c), "WX[%s, %s]" % (r, c), "WY[%s, %s]" % (r, c))
+_TGT0 = lambda r, c: "((not %s) or img_distance[%s, %s] == 0)" % (_TV("img[%s, %s]" % (r, c)), r, c)
+_ROW = lambda r: "all(%s and %s and %s for c in range(0, width))" % (_CELLF(r, "c"), _OUTF(r, "c"), _TGT0(r, "c"))
+_ROWS = lambda cond: "all(%s and %s and %s for r in range(0, height) for c in range(0, width) if %s)" % (
+    _CELLF("r", "c"), _OUTF("r", "c"), _TGT0("r", "c"), cond)
+_SH = ("output_img.shape[0] == height and output_img.shape[1] == width and img_distance.shape[0] == height and img_distance.shape[1] == width and "
+       "pan_near_x.shape[0] == width and pan_near_y.shape[0] == width and scan_line.shape[0] == width and nearest_xs.shape[0] == width and "
+       "nearest_ys.shape[0] == width and wit_x.shape[0] == width and wit_y.shape[0] == width")
+_SHL = _SH + " and line_proximity.shape[0] == width"
+_CANDG = lambda p: ("(pan_near_x[%(p)s] == -1 or (0 <= pan_near_x[%(p)s] and pan_near_x[%(p)s] < width and 0 <= pan_near_y[%(p)s] and "
+                    "pan_near_y[%(p)s] < height and " + _TV("img[pan_near_y[%(p)s], pan_near_x[%(p)s]]") + "))") % {"p": p}
+_CANDALL = "all(%s for p in range(0, width))" % _CANDG("p")
+# the callee's per-pixel facts, in the caller's names (line_id = line)
+_LD = lambda p: ("spec_dist(x_coords[wit_y[%(p)s], wit_x[%(p)s]], x_coords[line, %(p)s], y_coords[wit_y[%(p)s], wit_x[%(p)s]], y_coords[line, %(p)s], "
+                 "distance_metric)") % {"p": p}
+_LWIT = lambda p: ("(line_proximity[%(p)s] < 0 or (0 <= wit_x[%(p)s] and wit_x[%(p)s] < width and 0 <= wit_y[%(p)s] and wit_y[%(p)s] < height and "
+                   + _TV("img[wit_y[%(p)s], wit_x[%(p)s]]") + " and same(line_proximity[%(p)s], " + _LD("%(p)s") + ") and "
+                   "line_proximity[%(p)s] <= max_distance))") % {"p": p}
+_LOUT = lambda p: _OUT("line", p, "line_proximity[%s]" % p, "wit_x[%s]" % p, "wit_y[%s]" % p)
+_LTGT = lambda p: "((not %s) or line_proximity[%s] == 0)" % (_TV("img[line, %s]" % p), p)
+_NONAN = lambda p: "(not isnan(line_proximity[%s]))" % p
+_SCAN = "all(same(scan_line[p], img[line, p]) for p in range(0, width))"
+_NEAR_OK = lambda p: ("(nearest_xs[%(p)s] == -1 or (nearest_xs[%(p)s] == wit_x[%(p)s] and nearest_ys[%(p)s] == wit_y[%(p)s] and "
+                      "line_proximity[%(p)s] >= 0))") % {"p": p}
+# after a sweep: every pixel has its witness facts; a pixel the sweep did not improve still has the output it had
+_AFTER = ("all(%s and %s and %s and %s and (nearest_xs[p] != -1 or %s) for p in range(0, width))"
+          % (_LWIT("p"), _NONAN("p"), _NEAR_OK("p"), _LTGT("p"), _LOUT("p")))
+_AFTER_PART = lambda lo: ("all(%s and %s and %s and %s and (nearest_xs[p] != -1 or %s) for p in range(%s, width))"
+                          % (_LWIT("p"), _NONAN("p"), _NEAR_OK("p"), _LTGT("p"), _LOUT("p"), lo))
+_LINE_OK = lambda hi: "all(%s and %s and %s and %s for p in range(0, %s))" % (_LWIT("p"), _NONAN("p"), _LOUT("p"), _LTGT("p"), hi)
+_RESET = lambda hi: "all(nearest_xs[p] == -1 and nearest_ys[p] == -1 for p in range(0, %s))" % hi
+_OTHER_ROWS = _ROWS("r != line")
+
+
+def _upd(extra=()):      # an output-update loop: pixels below i are final for this sweep, the others as the sweep left them
+    return LoopSpec("for", index="i", inv=[_SHL, _CANDALL, _SCAN, _LINE_OK("i"), _AFTER_PART("i")] + list(extra))
+
+
+Contract(
+    G, "_process._process_numpy", {"img": "f2", "x_coords": "f2", "y_coords": "f2"},
+    closure={"max_distance": "float", "target_values": "f1", "distance_metric": "int", "process_mode": "int"},
+    ghost_params={"WX": "i2", "WY": "i2", "GD": "f2", "wit_x": "i1", "wit_y": "i1"},
+    lets=[("H0", "img.shape[0]"), ("W0", "img.shape[1]"), ("nv", "target_values.shape[0]")],
+    requires=[
+        "H0 >= 1 and W0 >= 1 and x_coords.shape[0] == H0 and x_coords.shape[1] == W0 and y_coords.shape[0] == H0 and y_coords.shape[1] == W0",
+        "wit_x.shape[0] == W0 and wit_y.shape[0] == W0",
+        "distance_metric == 0 or distance_metric == 2",
+        "process_mode == 0 or process_mode == 1 or process_mode == 2",
+        "not isnan(max_distance) and max_distance >= 0",
+        "all(isfinite(x_coords[r, c]) and isfinite(y_coords[r, c]) for r in range(0, H0) for c in range(0, W0))",
+    ],
+    modifies=("WX", "WY", "GD", "wit_x", "wit_y"),
+    result="f2",
+    ensures=[
+        "result.shape[0] == H0 and result.shape[1] == W0",
+        # the final distance of every cell: NaN, or the distance to an actual target cell (the witness) within max_distance
+        ("all(isnan(GD[r, c]) or (GD[r, c] >= 0 and %s) for r in range(0, H0) for c in range(0, W0))" % _WIT("r", "c", "GD[r, c]"))
+        .replace("width", "W0").replace("height", "H0"),
+        ("all((not %s) or GD[r, c] == 0 for r in range(0, H0) for c in range(0, W0))" % _TV("img[r, c]")),
+        "process_mode != 0 or all(same(result[r, c], GD[r, c]) for r in range(0, H0) for c in range(0, W0))",
+        # allocation / direction are computed from the same witness, and are NaN exactly where the distance is
+        "process_mode != 1 or all((isnan(GD[r, c]) and isnan(result[r, c])) or ((not isnan(GD[r, c])) and same(result[r, c], img[WY[r, c], WX[r, c]])) "
+        "for r in range(0, H0) for c in range(0, W0))",
+        "process_mode != 2 or all((isnan(GD[r, c]) and isnan(result[r, c])) or ((not isnan(GD[r, c])) and same(result[r, c], "
+        "spec_direction(x_coords[r, c], x_coords[WY[r, c], WX[r, c]], y_coords[r, c], y_coords[WY[r, c], WX[r, c]]))) "
+        "for r in range(0, H0) for c in range(0, W0))",
+    ],
+    loops={
+        0: LoopSpec("for", index="i", inv=["pan_near_x.shape[0] == width and pan_near_y.shape[0] == width",
+                                           "all(pan_near_x[p] == -1 and pan_near_y[p] == -1 for p in range(0, i))"]),
+        # ---- top-down pass
+        1: LoopSpec("for", index="line", inv=[
+            _SH, "line == 0 or line_proximity.shape[0] == width", _CANDALL,
+            _ROWS("r < line"),
+            "all(not isnan(img_distance[r, c]) for r in range(0, line) for c in range(0, width))",
+            "all(isnan(output_img[r, c]) for r in range(line, height) for c in range(0, width))",
+        ]),
+        2: LoopSpec("for", index="i", inv=["scan_line.shape[0] == width", "all(same(scan_line[p], img[line, p]) for p in range(0, i))"]),
+        3: LoopSpec("for", index="i", inv=[_SHL, "all(line_proximity[p] == -1 and nearest_xs[p] == -1 and nearest_ys[p] == -1 for p in range(0, i))"]),
+        4: _upd([_ROWS("r < line"), "all(isnan(output_img[r, c]) for r in range(line + 1, height) for c in range(0, width))",
+                 "all(not isnan(img_distance[r, c]) for r in range(0, line) for c in range(0, width))"]),
+        5: LoopSpec("for", index="i", inv=[_SHL, _RESET("i")]),
+        6: LoopSpec("for", index="i", inv=[
+            _SHL, _CANDALL, _LINE_OK("i"), _AFTER_PART("i"), _ROWS("r < line"),
+            "all(not isnan(img_distance[r, c]) for r in range(0, line) for c in range(0, width))",
+            "all(isnan(output_img[r, c]) for r in range(line + 1, height) for c in range(0, width))",
+            "all(same(img_distance[line, p], line_proximity[p]) and WX[line, p] == wit_x[p] and WY[line, p] == wit_y[p] for p in range(0, i))",
+        ]),
+        7: LoopSpec("for", index="i", inv=["pan_near_x.shape[0] == width and pan_near_y.shape[0] == width",
+                                           "all(pan_near_x[p] == -1 and pan_near_y[p] == -1 for p in range(0, i))"]),
+        # ---- bottom-up pass
+        8: LoopSpec("for", index="line", inv=[
+            _SHL, _CANDALL, _ROWS("True"),
+            "all(not isnan(img_distance[r, c]) for r in range(0, line + 1) for c in range(0, width))",
+            "all(same(GD[r, c], img_distance[r, c]) and (isnan(img_distance[r, c]) or img_distance[r, c] >= 0) "
+            "for r in range(line + 1, height) for c in range(0, width))",
+        ]),
+        9: LoopSpec("for", index="i", inv=[_SHL, "all(same(line_proximity[p], img_distance[line, p]) and wit_x[p] == WX[line, p] and "
+                                                  "wit_y[p] == WY[line, p] for p in range(0, i))"]),
+        10: LoopSpec("for", index="i", inv=["scan_line.shape[0] == width", "all(same(scan_line[p], img[line, p]) for p in range(0, i))"]),
+        11: LoopSpec("for", index="i", inv=[_SHL, _RESET("i")]),
+        12: _upd([_OTHER_ROWS]),
+        13: LoopSpec("for", index="i", inv=[_SHL, _RESET("i")]),
+        14: LoopSpec("for", index="i", inv=[
+            _SHL, _CANDALL, _OTHER_ROWS, _AFTER_PART("i"),
+            "all((isnan(line_proximity[p]) and isnan(output_img[line, p])) or (line_proximity[p] >= 0 and %s and %s) for p in range(0, i))"
+            % (_LWIT("p"), _LOUT("p")),
+            "all(%s for p in range(0, width))" % _LTGT("p"),
+        ]),
+        15: LoopSpec("for", index="i", inv=[
+            _SHL, _CANDALL, _OTHER_ROWS,
+            "all((isnan(line_proximity[p]) and isnan(output_img[line, p])) or (line_proximity[p] >= 0 and %s and %s) for p in range(0, width))"
+            % (_LWIT("p"), _LOUT("p")),
+            "all(%s for p in range(0, width))" % _LTGT("p"),
+            "all(same(img_distance[line, p], line_proximity[p]) and same(GD[line, p], line_proximity[p]) and WX[line, p] == wit_x[p] and "
+            "WY[line, p] == wit_y[p] for p in range(0, i))",
+            "all(not isnan(img_distance[r, c]) for r in range(0, line) for c in range(0, width))",
+            "all(same(GD[r, c], img_distance[r, c]) and (isnan(img_distance[r, c]) or img_distance[r, c] >= 0) "
+            "for r in range(line + 1, height) for c in range(0, width))",
+        ]),
+    },
+    ghost={"after_assign": {
+        "img_distance<-line_proximity[i]": ["WX[line, i] = wit_x[i]\nWY[line, i] = wit_y[i]\nGD[line, i] = line_proximity[i]"],
+        "line_proximity<-img_distance[line][i]": ["wit_x[i] = WX[line, i]\nwit_y[i] = WY[line, i]"],
+    }},
+    options={"ghost_spec_mode": True},
+    props=("C06",), axioms=("sqrt", "pi"),
+    native={"skip": True},
+    notes="planar metrics; soundness of the glue (witness bookkeeping), not nearest-ness",
+)
